@@ -1,7 +1,7 @@
 (* C01 -- every residue is a verbatim, re-indexed copy of its force-field block.
    Statements only; every proof is `exact <lemma>`; Print Assumptions under each. *)
 From Coq Require Import ZArith String List Bool.
-From PV Require Import Blocks C01_blocks Mods Gen_mods C01_mods.
+From PV Require Import Blocks C01_blocks C01_multi Mods Gen_mods C01_mods.
 Import ListNotations.
 Open Scope Z_scope.
 
@@ -30,6 +30,44 @@ Theorem C01_interactions_once_per_instance : forall idx blocks,
   flat_map (fun b => map (fun i => (i_sec i, i_params i, i_meta i)) (b_inters b)) blocks.
 Proof. exact spec_inters_params. Qed.
 Print Assumptions C01_interactions_once_per_instance.
+
+(* ---- residues that stem from multi-residue blocks (nodes labelled from_itp) ---- *)
+
+(* for every first residue id and every sequence of block instances (single- or multi-residue,
+   labelled or not) that is accepted, the molecule is the layout in which every instance is a
+   copy of its block shifted by the atom count, residue id and charge group reached so far;
+   the interactions are those of the single-residue layout (once per instance, re-indexed) *)
+Theorem C01_multi_residue_layout : forall r0 blocks m,
+  Forall (fun fb => b_atoms (snd fb) <> []) blocks ->
+  add_blocks_m r0 blocks = Some m ->
+  exists f b rest, blocks = (f, b) :: rest /\
+    m_atoms m = spec_atoms_m 0 (r0 - min_resid b) 0 (map snd blocks) /\ m_inters m = spec_inters 0 (map snd blocks).
+Proof. exact add_blocks_m_layout. Qed.
+Print Assumptions C01_multi_residue_layout.
+
+(* with blocks whose residue ids run 1..k in atom order: the residue ids of the molecule start
+   at the first residue id, rise by 0 or 1 from atom to atom (every residue once, in order,
+   its atoms contiguous) and end at first id - 1 + total number of residues *)
+Theorem C01_multi_residue_numbering : forall blocks idx dres cg,
+  Forall numbered blocks -> blocks <> [] ->
+  let rs := map (fun ka => a_resid (snd ka)) (spec_atoms_m idx dres cg blocks) in
+  hd 0 rs = dres + 1 /\ steps01 rs /\ last rs 0 = dres + fold_right (fun b acc => last_resid b + acc) 0 blocks.
+Proof. exact layout_numbering. Qed.
+Print Assumptions C01_multi_residue_numbering.
+
+(* a block with several residue ids on a node that is not labelled from_itp is rejected *)
+Theorem C01_unlabelled_multi_residue_block_rejected : forall r0 blocks f b,
+  In (f, b) blocks -> f = false -> (1 < nresid b)%nat -> add_blocks_m r0 blocks = None.
+Proof. exact add_blocks_m_rejects. Qed.
+Print Assumptions C01_unlabelled_multi_residue_block_rejected.
+
+Example C01_multi_nonvacuous :
+  match add_blocks_m 5 [(true, ex_dim); (true, ex_dim); (false, ex_rc)] with
+  | Some m => map (fun ka => a_resid (snd ka)) (m_atoms m) = [5; 5; 6; 7; 7; 8; 9] /\
+              map i_atoms (m_inters m) = [[0; 1]; [1; 2]; [3; 4]; [4; 5]]
+  | None => False
+  end /\ add_blocks_m 5 [(false, ex_dim)] = None.
+Proof. exact ex_multi. Qed.
 
 (* ---- terminal modifications (apply_mod), with the applicability guard as the source states it
    now (Gen_mods.mod_applicable: the residue name is one of the listed protein residue names) ---- *)
